@@ -214,6 +214,29 @@ func (f *Formula) mapAtoms(fn func(a *Atom) *Formula) *Formula {
 	return f
 }
 
+// mapAtomsPol is mapAtoms with the polarity of the occurrence (true: the atom occurs under an even number of negations).
+func (f *Formula) mapAtomsPol(pos bool, fn func(a *Atom, pos bool) *Formula) *Formula {
+	switch f.K {
+	case FLit:
+		return fn(f.Atom, pos)
+	case FNot:
+		return fNot(f.Sub[0].mapAtomsPol(!pos, fn))
+	case FAnd:
+		var subs []*Formula
+		for _, s := range f.Sub {
+			subs = append(subs, s.mapAtomsPol(pos, fn))
+		}
+		return fAnd(subs...)
+	case FOr:
+		var subs []*Formula
+		for _, s := range f.Sub {
+			subs = append(subs, s.mapAtomsPol(pos, fn))
+		}
+		return fOr(subs...)
+	}
+	return f
+}
+
 // dnf expands a formula into a list of literal conjunctions (for branch splitting).
 // The result is a disjunction of conjunctions; `neg` asks for the DNF of the negation.
 func dnf(f *Formula, neg bool) [][]Lit {
